@@ -203,6 +203,9 @@ NESTED_LITS = [
     ("5_U8", [(8, 5)]), ("((((5_U8))))", [(8, 5)]), ("[1_U8, 2_U8][1]", [(8, 2)]), ("{ let x = 3_U65; x }", [(65, 3)]), ("{ [({ 7_U9 },)] }[0].0", [(9, 7)]),
     ("id(0xff_U8)", [(8, 255)]), ("id({ id((0b11_U2)) })", [(2, 3)]), ("if true { 1_U1 } else { 0_U1 }", [(1, 1)]),
     ("0xAB_B8.into_inner()", [(8, 0xAB)]), ("0x1_B8.into_inner()", [(8, 1)]),
+    # deep nesting: 65, 100 and 200 groups around one literal, in parentheses, blocks and mixed with a call
+    ("(" * 65 + "5_U8" + ")" * 65, [(8, 5)]), ("{" * 100 + " 7_U9 " + "}" * 100, [(9, 7)]), ("({" * 100 + " 3_U65 " + "})" * 100, [(65, 3)]),
+    ("id(" * 70 + "0xff_U8" + ")" * 70, [(8, 255)]),
 ]
 
 
@@ -325,7 +328,7 @@ def c19_misc_program(only=None):
     """all pass-through / nesting / forwarding cases in one program, or (only=(tag, k)) a single case"""
     def want(tag, k):
         return only is None or only == (tag, k) or (only == ("P", k) and tag == "Q")
-    lines = ["#![allow(unused)]", "use ruint::{uint, Uint, Bits};",
+    lines = ["#![allow(unused)]", "#![recursion_limit = \"1024\"]", "use ruint::{uint, Uint, Bits};",
              "fn ty<T>(_: &T) -> &'static str { std::any::type_name::<T>() }",
              "fn id<T>(x: T) -> T { x }",
              "fn show<const B: usize, const L: usize>(x: Uint<B, L>) -> String { format!(\"{} {:?}\", B, x.as_limbs()) }",
